@@ -1,5 +1,7 @@
 import Tcs.Proofs.Reduction
 import Tcs.Proofs.LinImpl
+import Tcs.Props.C01
+import Tcs.Props.C14
 namespace Tcs
 
 /-! # C03 – concurrent requests for one client behave as if executed one at a time
@@ -60,6 +62,30 @@ theorem seqRun_asRunH (S : Sys) (evs : List Ev) (l : List Nat) (a : AS) (h : ∀
     simp only [seqRun, he, asRunH, List.map_cons]
     exact ⟨i1, by rw [i2]⟩
 
+theorem asStep_no_storageError (S : Sys) (e : Ev) (a : AS) : (asStep S e a).1 ≠ Out.storageError := by
+  cases hc : e.client with
+  | none => simp [asStep, hc]
+  | some c =>
+    simp only [asStep, hc]
+    cases e with
+    | av c' p seg n now => simp only [cstep, cAddVersion]; split <;> (try split) <;> simp
+    | avLib c' p seg n now => simp only [cstep, cAddVersion]; split <;> (try split) <;> simp
+    | create c' => simp [cstep]
+    | gcv c' p => simp only [cstep, cGetChild]; split <;> (try split) <;> (try split) <;> simp
+    | «as» c' v d now => simp only [cstep, cAddSnapshot]; split <;> (try split) <;> (try split) <;> simp
+    | gs c' => simp only [cstep, cGetSnapshot]; split <;> (try split) <;> (try split) <;> simp
+    | reopen => simp [Ev.client] at hc
+
+theorem asRunH_no_storageError (S : Sys) (h : List Ev) (a : AS) : ∀ o ∈ (asRunH S h a).1, o ≠ Out.storageError := by
+  induction h generalizing a with
+  | nil => intro o ho; simp [asRunH] at ho
+  | cons e es ih =>
+    intro o ho
+    simp only [asRunH, List.mem_cons] at ho
+    rcases ho with rfl | ho
+    · exact asStep_no_storageError S e a
+    · exact ih _ o ho
+
 /-- **C03 (partial: modulo F3; the storage lock is the environment's).** For every backend tied to the abstract
     storage, every state reachable without faults (`Rep`, `Inv`), every finite set of HTTP-level requests (any mix of
     AddVersion / GetChildVersion / AddSnapshot / GetSnapshot, new and existing clients) and every schedule at
@@ -78,9 +104,10 @@ theorem C03_linearizable_partial (I : Impl σ) (S : Sys) (hS : S.ensure = ensure
       ∃ s' outs, runHC I.B I.mode S (evsOf evs order) s0 = (outs, s', true) ∧
         (∀ c, (I.abs (runSmall I.B I.mode (cinit S evs s0) sch).db).st c = (I.abs s').st c) ∧
         (I.abs (runSmall I.B I.mode (cinit S evs s0) sch).db).ids = (I.abs s').ids ∧
-        ∀ (i t : Nat) (o' : Out), order[i]? = some t → outs[i]? = some o' →
-          ∃ e o, evs[t]? = some e ∧ (runSmall I.B I.mode (cinit S evs s0) sch).threads[t]? = some (Th.finished o) ∧
-            sameRespF3 e o o' := by
+        Good I s' ∧ (∀ o' ∈ outs, o' ≠ Out.storageError) ∧
+        ∀ (i t : Nat), order[i]? = some t →
+          ∃ o' e o, outs[i]? = some o' ∧ evs[t]? = some e ∧
+            (runSmall I.B I.mode (cinit S evs s0) sch).threads[t]? = some (Th.finished o) ∧ sameRespF3 e o o' := by
   -- layer 1: reduction, prefix by prefix
   obtain ⟨sched', _, hred, hpre⟩ := C03_reduction_prefix I.B I.mode (cinit S evs s0) (ainit S evs s0)
     (red_init I.B s0 (evs.map (·.req S))) sch
@@ -196,8 +223,8 @@ theorem C03_linearizable_partial (I : Impl σ) (S : Sys) (hS : S.ensure = ensure
   have hlt : ∀ t ∈ linOrder (mrun S evs m0 sched').log, t < evs.length := by
     intro t ht; exact List.mem_range.mp ((List.Perm.mem_iff hperm).mp ht)
   obtain ⟨q1, q2⟩ := seqRun_asRunH S evs _ a0 hlt
-  obtain ⟨s', hs1, hs2, _⟩ := hist_good I S hS _ s0 seen0 hrep hinv hseen hfreshO
-  refine ⟨linOrder (mrun S evs m0 sched').log, hperm, ?_, hfreshO, s', _, hs1, ?_, ?_, ?_⟩
+  obtain ⟨s', hs1, hs2, hgood'⟩ := hist_good I S hS _ s0 seen0 hrep hinv hseen hfreshO
+  refine ⟨linOrder (mrun S evs m0 sched').log, hperm, ?_, hfreshO, s', _, hs1, ?_, ?_, hgood', asRunH_no_storageError S _ _, ?_⟩
   · -- real-time order
     intro t u hprec
     obtain ⟨p', q', x, y, hs', hx, hxf, hy, hyi⟩ := hprecA t u hprec
@@ -247,23 +274,249 @@ theorem C03_linearizable_partial (I : Impl σ) (S : Sys) (hS : S.ensure = ensure
     show (I.abs (runAtomic I.B I.mode (ainit S evs s0) sched').db).ids = _
     rw [hriF.arel.abs]
     exact hids
-  · intro i t o' hi ho'
-    rw [← q2, List.getElem?_map] at ho'
+  · intro i t hi
     rw [← hfst, List.getElem?_map] at hi
     cases hL : (seqRun S evs (linOrder (mrun S evs m0 sched').log) a0).2[i]? with
     | none => rw [hL] at hi; cases hi
     | some pr =>
-      rw [hL] at hi ho'
-      simp only [Option.map_some, Option.some.injEq] at hi ho'
-      have hmem : (t, o') ∈ (seqRun S evs (linOrder (mrun S evs m0 sched').log) a0).2 := by
+      rw [hL] at hi
+      simp only [Option.map_some, Option.some.injEq] at hi
+      have hmem : (t, pr.2) ∈ (seqRun S evs (linOrder (mrun S evs m0 sched').log) a0).2 := by
         have := List.mem_of_getElem? hL
-        rw [← hi, ← ho']; exact this
-      obtain ⟨e, o, he, hph, hresp⟩ := houts t o' hmem
+        rw [← hi]; exact this
+      obtain ⟨e, o, he, hph, hresp⟩ := houts t pr.2 hmem
       obtain ⟨o2, ho2, hc2⟩ := hthread t e he
       have : o2 = o := by
         have h1 : (mrun S evs m0 sched').ph[t]? = some (Phase.finished o) := hph
         rw [ho2] at h1; cases h1; rfl
       subst this
-      exact ⟨e, o2, he, hc2, hresp⟩
+      refine ⟨pr.2, e, o2, ?_, he, hc2, hresp⟩
+      rw [← q2, List.getElem?_map, hL]; rfl
+
+
+/-! ## from the empty database, for the two shipped backends; the "in particular" clauses -/
+
+theorem respond_status_500 (o : Out) : (respond o).status = 500 ↔ o = Out.storageError := by
+  cases o <;> simp [respond, refuse, Refusal.status]
+
+/-- the one-at-a-time run is an ordinary fresh sequential history from the empty database: everything proved about
+    sequential histories (C01, C02, C07 – C13, C18) applies to it -/
+theorem C03_from_init (I : Impl σ) (S : Sys) (hS : S.ensure = ensureClientFixed) (evs : List Ev)
+    (hhttp : ∀ e ∈ evs, e.isHttp = true) (sch : List Nat) (hdist : DistinctIds evs []) (hcausal : Causal I S evs I.init sch)
+    (hfin : ∀ x ∈ (runSmall I.B I.mode (cinit S evs I.init) sch).threads, ∃ o, x = Th.finished o) :
+    ∃ order : List Nat, order.Perm (List.range evs.length) ∧
+      (∀ t u, Precedes I S evs I.init sch t u → Before order t u) ∧
+      Fresh (evsOf evs order) [] ∧
+      (∀ c, (I.abs (runSmall I.B I.mode (cinit S evs I.init) sch).db).st c =
+        (I.abs (runH I.B I.mode S (evsOf evs order) I.init).2).st c) ∧
+      (runHC I.B I.mode S (evsOf evs order) I.init).2.2 = true ∧
+      ∀ (i t : Nat), order[i]? = some t →
+        ∃ o' e o, (runH I.B I.mode S (evsOf evs order) I.init).1[i]? = some o' ∧ o' ≠ Out.storageError ∧ evs[t]? = some e ∧
+          (runSmall I.B I.mode (cinit S evs I.init) sch).threads[t]? = some (Th.finished o) ∧ sameRespF3 e o o' := by
+  obtain ⟨order, h1, h2, h3, s', outs, h4, h5, _, _, h7, h8⟩ :=
+    C03_linearizable_partial I S hS evs hhttp I.init [] I.rep_init (by rw [I.abs_init]; exact inv_init)
+      (by rw [I.abs_init]; exact seen_init []) sch hdist hcausal hfin
+  have hrun : runH I.B I.mode S (evsOf evs order) I.init = (outs, s') := by unfold runH; rw [h4]
+  refine ⟨order, h1, h2, h3, ?_, by rw [h4], ?_⟩
+  · intro c; rw [hrun]; exact h5 c
+  · intro i t hi
+    obtain ⟨o', e, o, q1, q2, q3, q4⟩ := h8 i t hi
+    exact ⟨o', e, o, by rw [hrun]; exact q1, h7 o' (List.mem_of_getElem? q1), q2, q3, q4⟩
+
+/-- no request is answered with a server error merely because another request overlapped it -/
+theorem C03_no_overlap_5xx (I : Impl σ) (S : Sys) (hS : S.ensure = ensureClientFixed) (evs : List Ev)
+    (hhttp : ∀ e ∈ evs, e.isHttp = true) (s0 : σ) (seen0 : List Uuid)
+    (hrep : I.Rep s0) (hinv : Inv (I.abs s0)) (hseen : Seen (I.abs s0) seen0)
+    (sch : List Nat) (hdist : DistinctIds evs seen0) (hcausal : Causal I S evs s0 sch)
+    (hfin : ∀ x ∈ (runSmall I.B I.mode (cinit S evs s0) sch).threads, ∃ o, x = Th.finished o)
+    (t : Nat) (ht : t < evs.length) :
+    ∃ o, (runSmall I.B I.mode (cinit S evs s0) sch).threads[t]? = some (Th.finished o) ∧ (respond o).status ≠ 500 := by
+  obtain ⟨order, h1, _, _, s', outs, _, _, _, _, h7, h8⟩ :=
+    C03_linearizable_partial I S hS evs hhttp s0 seen0 hrep hinv hseen sch hdist hcausal hfin
+  have hmem : t ∈ order := (List.Perm.mem_iff h1).mpr (List.mem_range.mpr ht)
+  obtain ⟨i, hi⟩ := List.mem_iff_getElem?.mp hmem
+  obtain ⟨o', e, o, q1, q2, q3, q4⟩ := h8 i t hi
+  refine ⟨o, q3, ?_⟩
+  have ho' := h7 o' (List.mem_of_getElem? q1)
+  rcases q4 with hq | ⟨_, rfl, _⟩
+  · intro h500
+    have : (respond o').status = 500 := by rw [← hq]; exact h500
+    exact ho' ((respond_status_500 o').1 this)
+  · simp [respond]
+
+theorem mem_accepted (c : Uuid) (h : List Ev) (outs : List Out) (i : Nat) (e : Ev) (o : Out) (v : Version)
+    (he : h[i]? = some e) (ho : outs[i]? = some o) (hc : e.client = some c) (hv : v ∈ appended e o) :
+    v ∈ accepted c h outs := by
+  induction h generalizing i outs with
+  | nil => simp at he
+  | cons x xs ih =>
+    cases outs with
+    | nil => simp at ho
+    | cons y ys =>
+      cases i with
+      | zero =>
+        simp only [List.getElem?_cons_zero, Option.some.injEq] at he ho
+        subst he; subst ho
+        simp [accepted, hc, hv]
+      | succ j =>
+        simp only [List.getElem?_cons_succ] at he ho
+        simp only [accepted, List.mem_append]
+        exact .inr (ih ys j he ho)
+
+theorem evsOf_getElem (evs : List Ev) (order : List Nat) (hlt : ∀ x ∈ order, x < evs.length) (i t : Nat)
+    (hi : order[i]? = some t) : (evsOf evs order)[i]? = evs[t]? := by
+  induction order generalizing i with
+  | nil => simp at hi
+  | cons x xs ih =>
+    have hx : x < evs.length := hlt x (by simp)
+    have hxe : evs[x]? = some evs[x] := List.getElem?_eq_getElem hx
+    have hcons : evsOf evs (x :: xs) = evs[x] :: evsOf evs xs := by simp [evsOf, hxe]
+    rw [hcons]
+    cases i with
+    | zero =>
+      simp only [List.getElem?_cons_zero, Option.some.injEq] at hi
+      subst hi
+      simp only [List.getElem?_cons_zero, hxe]
+    | succ j =>
+      simp only [List.getElem?_cons_succ] at hi ⊢
+      exact ih (fun y hy => hlt y (by simp [hy])) j hi
+
+theorem asRunH_out_drawn (S : Sys) (h : List Ev) (a : AS) (i : Nat) (e : Ev) (v : Uuid) (u : Urgency)
+    (he : h[i]? = some e) (ho : (asRunH S h a).1[i]? = some (.avOk v u)) : e.drawn = some v := by
+  induction h generalizing a i with
+  | nil => simp at he
+  | cons x xs ih =>
+    cases i with
+    | zero =>
+      simp only [List.getElem?_cons_zero, Option.some.injEq, asRunH] at he ho
+      subst he
+      cases hc : x.client with
+      | none => simp [asStep, hc] at ho
+      | some c => rw [asStep_out S x a c hc] at ho; exact avOk_id S x _ v u ho
+    | succ j =>
+      simp only [List.getElem?_cons_succ, asRunH] at he ho
+      exact ih _ j he ho
+
+/-- two overlapping AddVersion requests are never both accepted on the same parent -/
+theorem C03_no_double_accept (I : Impl σ) (S : Sys) (hS : S.ensure = ensureClientFixed) (evs : List Ev)
+    (hhttp : ∀ e ∈ evs, e.isHttp = true) (sch : List Nat) (hdist : DistinctIds evs []) (hcausal : Causal I S evs I.init sch)
+    (hfin : ∀ x ∈ (runSmall I.B I.mode (cinit S evs I.init) sch).threads, ∃ o, x = Th.finished o)
+    (t u : Nat) (htu : t ≠ u) (c p : Uuid) (seg1 seg2 : Bytes) (n1 n2 : Uuid) (now1 now2 : Int)
+    (het : evs[t]? = some (.av c p seg1 n1 now1)) (heu : evs[u]? = some (.av c p seg2 n2 now2))
+    (v1 v2 : Uuid) (u1 u2 : Urgency)
+    (hrt : (runSmall I.B I.mode (cinit S evs I.init) sch).threads[t]? = some (Th.finished (.avOk v1 u1)))
+    (hru : (runSmall I.B I.mode (cinit S evs I.init) sch).threads[u]? = some (Th.finished (.avOk v2 u2))) : False := by
+  obtain ⟨order, h1, _, h3, _, _, h8⟩ := C03_from_init I S hS evs hhttp sch hdist hcausal hfin
+  have hlt : ∀ x ∈ order, x < evs.length := fun x hx => List.mem_range.mp ((List.Perm.mem_iff h1).mp hx)
+  have houts := (hist_accepted I S hS (evsOf evs order) h3).2.1
+  have key : ∀ (t : Nat) (seg : Bytes) (n : Uuid) (now : Int) (v : Uuid) (ur : Urgency),
+      evs[t]? = some (.av c p seg n now) →
+      (runSmall I.B I.mode (cinit S evs I.init) sch).threads[t]? = some (Th.finished (.avOk v ur)) →
+      n = v ∧ (⟨v, p, seg⟩ : Version) ∈ accepted c (evsOf evs order) (runH I.B I.mode S (evsOf evs order) I.init).1 := by
+    intro t seg n now v ur he hr
+    have ht : t < evs.length := (List.getElem?_eq_some_iff.mp he).1
+    have hmem : t ∈ order := (List.Perm.mem_iff h1).mpr (List.mem_range.mpr ht)
+    obtain ⟨i, hi⟩ := List.mem_iff_getElem?.mp hmem
+    obtain ⟨o', e, o, q1, _, q2, q3, q4⟩ := h8 i t hi
+    rw [he] at q2; cases q2
+    rw [hr] at q3; cases q3
+    have ho' : o' = .avOk v ur := by
+      rcases q4 with hq | ⟨hf, _, _⟩
+      · have := C14_respond_injective _ _ hq
+        cases o' <;> simp [expectedDecode] at this
+        obtain ⟨rfl, rfl⟩ := this; rfl
+      · exact absurd hf (by simp)
+    subst ho'
+    have hev : (evsOf evs order)[i]? = some (.av c p seg n now) := by rw [evsOf_getElem evs order hlt i t hi, he]
+    refine ⟨?_, mem_accepted c _ _ i _ _ _ hev q1 rfl (by simp [appended])⟩
+    have q1' := q1
+    rw [houts] at q1'
+    have := asRunH_out_drawn S _ _ i _ v ur hev q1'
+    simpa [Ev.drawn] using this
+  obtain ⟨e1, m1⟩ := key t seg1 n1 now1 v1 u1 het hrt
+  obtain ⟨e2, m2⟩ := key u seg2 n2 now2 v2 u2 heu hru
+  have heq := C01_no_shared_parent I S hS (evsOf evs order) h3 c _ _ m1 m2 rfl
+  have hv : v1 = v2 := by injection heq
+  have := (hdist t _ n1 het rfl).2.2.2 u _ (Ne.symm htu) heu
+  apply this
+  simp only [Ev.drawn]
+  rw [e1, hv, ← e2]
+
+
+/-! ## non-vacuity, and the F3 witness -/
+
+namespace C03Ex
+def S : Sys := { cfg := ⟨14, 100⟩ }
+/-- X = a first AddVersion for a never-seen client, B = an AddSnapshot, Y = another first AddVersion -/
+def evs : List Ev :=
+  [ .av ⟨1⟩ Uuid.nil ⟨#[1]⟩ ⟨10⟩ 0, .as ⟨1⟩ ⟨77⟩ ⟨#[7]⟩ 0, .av ⟨1⟩ Uuid.nil ⟨#[2]⟩ ⟨11⟩ 0 ]
+/-- X runs its first two transactions (no such client; create) and stalls; B runs completely; only then Y is
+    invoked and runs completely; X resumes -/
+def sch : List Nat := List.replicate 9 0 ++ List.replicate 12 1 ++ List.replicate 20 2 ++ List.replicate 12 0
+
+def observed : List (Option Out) := (runSmall sqlImpl.B sqlImpl.mode (cinit S evs sqlImpl.init) sch).threads.map Th.resp
+
+/-- what the SQLite model answers under that schedule: X 409, B **200**, Y 200 -/
+example : observed = [some (.avConflict ⟨11⟩), some (.asDone false), some (.avOk ⟨11⟩ .high)] := by decide
+
+/-- B had been answered before Y was invoked -/
+example : Precedes sqlImpl S evs sqlImpl.init sch 1 2 :=
+  ⟨List.replicate 9 0 ++ List.replicate 12 1, List.replicate 20 2 ++ List.replicate 12 0, .asDone false, evs[2].req S,
+    by simp [sch], by rfl, by rfl⟩
+
+theorem evs_cases (t : Nat) (e : Ev) (h : evs[t]? = some e) :
+    (t = 0 ∧ e = evs[0]) ∨ (t = 1 ∧ e = evs[1]) ∨ (t = 2 ∧ e = evs[2]) := by
+  match t, h with
+  | 0, h => simp [evs] at h ⊢; exact h.symm
+  | 1, h => simp [evs] at h ⊢; exact h.symm
+  | 2, h => simp [evs] at h ⊢; exact h.symm
+  | (k+3), h => simp [evs] at h
+
+/-- the hypotheses of `C03_from_init` are satisfiable: this execution meets all of them -/
+example : (∀ e ∈ evs, e.isHttp = true) ∧ DistinctIds evs [] ∧ Causal sqlImpl S evs sqlImpl.init sch ∧
+    (∀ x ∈ (runSmall sqlImpl.B sqlImpl.mode (cinit S evs sqlImpl.init) sch).threads, ∃ o, x = Th.finished o) := by
+  refine ⟨by decide, ?_, ?_, ?_⟩
+  · intro t e n he hd
+    rcases evs_cases t e he with ⟨rfl, rfl⟩ | ⟨rfl, rfl⟩ | ⟨rfl, rfl⟩ <;> simp [evs, Ev.drawn] at hd <;> subst hd <;>
+    · refine ⟨by decide, by simp, by decide, ?_⟩
+      intro u e' hu he'
+      rcases evs_cases u e' he' with ⟨rfl, rfl⟩ | ⟨rfl, rfl⟩ | ⟨rfl, rfl⟩ <;> first | exact absurd rfl hu | decide
+  · intro t u e e' n he he' hd hn
+    exfalso
+    rcases evs_cases t e he with ⟨rfl, rfl⟩ | ⟨rfl, rfl⟩ | ⟨rfl, rfl⟩ <;> simp [evs, Ev.drawn] at hd <;> subst hd <;>
+    · rcases evs_cases u e' he' with ⟨rfl, rfl⟩ | ⟨rfl, rfl⟩ | ⟨rfl, rfl⟩ <;> revert hn <;> decide
+  · have h : (runSmall sqlImpl.B sqlImpl.mode (cinit S evs sqlImpl.init) sch).threads.map Th.resp =
+        [some (.avConflict ⟨11⟩), some (.asDone false), some (.avOk ⟨11⟩ .high)] := by decide
+    intro x hx
+    obtain ⟨i, hi, rfl⟩ := List.getElem_of_mem hx
+    have hi' : ((runSmall sqlImpl.B sqlImpl.mode (cinit S evs sqlImpl.init) sch).threads.map Th.resp)[i]? =
+        some (Th.resp (runSmall sqlImpl.B sqlImpl.mode (cinit S evs sqlImpl.init) sch).threads[i]) := by
+      simp [hi]
+    rw [h] at hi'
+    generalize (runSmall sqlImpl.B sqlImpl.mode (cinit S evs sqlImpl.init) sch).threads[i] = th at hi'
+    have hsome : ∃ o, Th.resp th = some o := by
+      match i, hi' with
+      | 0, h0 => exact ⟨_, (Option.some.inj h0).symm⟩
+      | 1, h0 => exact ⟨_, (Option.some.inj h0).symm⟩
+      | 2, h0 => exact ⟨_, (Option.some.inj h0).symm⟩
+      | (k+3), h0 => simp at h0
+    obtain ⟨o, ho⟩ := hsome
+    cases th <;> simp [Th.resp] at ho
+    exact ⟨o, by rw [ho]⟩
+
+/-- responses of the one-at-a-time run of the requests in a given order, as an HTTP client sees them -/
+def seqResponses (order : List Nat) : List Response :=
+  (runH sqlImpl.B sqlImpl.mode S (evsOf evs order) sqlImpl.init).1.map respond
+def observedIn (order : List Nat) : List Response :=
+  order.filterMap fun t => ((observed[t]?).bind id).map respond
+
+/-- **F3, as a theorem about the model.** The three orders below are all the permutations of the three requests in
+    which B (1) comes before Y (2), as real time demands. None of them gives the requests the responses they got:
+    B is answered 200 only if X went first, but then X is accepted and Y conflicts. So the strict reading of C03 is
+    false of this execution; `C03_linearizable_partial` shows that the relaxation `sameRespF3` is all it takes. -/
+theorem C03_relaxation_needed :
+    ∀ order ∈ [[0, 1, 2], [1, 0, 2], [1, 2, 0]], seqResponses order ≠ observedIn order := by decide
+
+end C03Ex
 
 end Tcs
